@@ -80,6 +80,7 @@ class RingMachine(Machine):
         self.fresh = 0
         self.freed_cb = []      # objects handed to the pool's free_cb
         self.alloc_cb = []      # objects produced by the pool's alloc_cb
+        self.last_access = None
         self.pc = None          # (function, line) of the pending access, for reports
         self.atomic_ops = 0
         self.plain_ops = 0
@@ -95,8 +96,10 @@ class RingMachine(Machine):
             if self.cur_op is not None:
                 self.op_first.setdefault(self.cur_op, t)
                 self.op_last[self.cur_op] = t
+            self.last_access = (kind, loc, ans)
+            self.note_access(kind, loc, ans)
             return ans
-        if self.live_budget is not None:
+        if self.live_budget is not None and not self.glued(kind, loc):
             if self.live_budget <= 0:
                 self.pc = (kind, loc, node.get('l') if isinstance(node, dict) else None)
                 raise Suspend()
@@ -135,14 +138,41 @@ class RingMachine(Machine):
             sh.elems[loc] = arg
             ans = None
             self.plain_ops += 1
+        elif kind == 'qpush':
+            q = sh.cells.get(loc, ())
+            if len(q) < sh.length:
+                sh.cells[loc] = q + (arg,)
+                ans = 1
+            else:
+                ans = 0
+            self.atomic_ops += 1
+        elif kind == 'qpop':
+            q = sh.cells.get(loc, ())
+            if q:
+                sh.cells[loc] = q[1:]
+                ans = q[0]
+            else:
+                ans = ('null',)
+            self.atomic_ops += 1
+        elif kind == 'wait':
+            ans = None        # enabled-ness is decided by the explorer
         elif kind == 'event':
             sh.cells[('event', loc)] = sh.cells.get(('event', loc), 0) + 1
             ans = None
         else:
             raise Undecided('unknown access ' + kind)
         self.log.append((t, ans, kind, loc, self.cur_op))
+        self.last_access = (kind, loc, ans)
+        self.note_access(kind, loc, ans)
         self.pos += 1
         return ans
+
+    def note_access(self, kind, loc, ans):
+        pass
+
+    def glued(self, kind, loc):
+        """True: this access is taken in the same step as the previous one of the thread (no scheduling point in between)"""
+        return False
 
     # ---- memory model --------------------------------------------------------
     def _elem_index(self, obj):
@@ -356,6 +386,9 @@ class Explorer:
         self.transitions = 0
         self.machine_cls = machine_cls or RingMachine
         self.spin_bound = 120
+        self.enabled = None        # (pending access, shared) -> may the thread take its next step?
+        self.on_deadlock = None
+        self.deadlocks = 0
         self.spins_cut = 0
 
     def advance(self, shared, log, t, budget):
@@ -392,6 +425,14 @@ class Explorer:
             if self.states > self.max_states:
                 raise Undecided('more than %d product states' % self.max_states)
             pending = [t for t in range(n) if not infos[t].finished]
+            if pending and self.enabled is not None:
+                runnable = [t for t in pending if self.enabled(infos[t].pc, shared)]
+                if not runnable:
+                    self.deadlocks += 1
+                    if self.on_deadlock is not None:
+                        self.on_deadlock(infos, shared)
+                    continue
+                pending = runnable
             if not pending:
                 self.executions += 1
                 self.accesses = max(self.accesses, shared.naccess)
